@@ -126,6 +126,7 @@ func c08Judge(c *mon.Ctx, in *progInput) {
 	var prev *bt.Output
 	var opts []interpreter.ExecutionOptionFunc
 	var txBefore, extExpect []byte
+	amountOnly := in.Ctx.HasTx && !in.Ctx.NilUnlock && (len(in.Unlock)+len(in.Lock))%4 == 2
 	if in.Ctx.HasTx {
 		tx = &bt.Tx{Version: in.Ctx.Version, LockTime: in.Ctx.LockTime}
 		inp := &bt.Input{PreviousTxOutIndex: 3, SequenceNumber: in.Ctx.Sequence, UnlockingScript: unlock}
@@ -150,6 +151,15 @@ func c08Judge(c *mon.Ctx, in *progInput) {
 			i0.UnlockingScript = nil
 			extExpect = exp.ExtendedBytes()
 			opts = append(opts, interpreter.WithTx(tx, 0, prev), interpreter.WithScripts(lock, unlock))
+		} else if amountOnly {
+			// the checked input already carries the spent output (tx.From / FromUTXOs, or an earlier
+			// Execute recorded it); WithTx is given the spent VALUE only, the scripts come through
+			// WithScripts. Afterwards the input still records the spent output's value and script.
+			inp.PreviousTxSatoshis = in.Ctx.Sats
+			inp.PreviousTxScript = bscript.NewFromBytes(append([]byte{}, in.Lock...))
+			prev = &bt.Output{Satoshis: in.Ctx.Sats}
+			opts = append(opts, interpreter.WithTx(tx, 0, prev), interpreter.WithScripts(lock, unlock))
+			c.Count("C08:context:value-with-WithTx,scripts-with-WithScripts,input-already-records-the-spent-output")
 		} else {
 			opts = append(opts, interpreter.WithTx(tx, 0, prev))
 		}
@@ -181,7 +191,11 @@ func c08Judge(c *mon.Ctx, in *progInput) {
 		if after := tx.Bytes(); !bytes.Equal(after, txBefore) {
 			c.Violationf("C08:caller-data:tx-serialisation-modified:"+e, "tx.Bytes() changed by Execute: before %x after %x", txBefore, after)
 		}
-		if prev.Satoshis != in.Ctx.Sats || prev.LockingScript == nil || !bytes.Equal(*prev.LockingScript, in.Lock) {
+		if amountOnly {
+			if prev.Satoshis != in.Ctx.Sats || prev.LockingScript != nil {
+				c.Violationf("C08:caller-data:previous-output-modified:"+e, "the previous output given with its value only was changed by Execute (unlock %x lock %x)", []byte(in.Unlock), []byte(in.Lock))
+			}
+		} else if prev.Satoshis != in.Ctx.Sats || prev.LockingScript == nil || !bytes.Equal(*prev.LockingScript, in.Lock) {
 			c.Violationf("C08:caller-data:previous-output-modified:"+e, "previous output changed by Execute (unlock %x lock %x)", []byte(in.Unlock), []byte(in.Lock))
 		}
 		ext := tx.ExtendedBytes()
@@ -194,7 +208,7 @@ func c08Judge(c *mon.Ctx, in *progInput) {
 			}
 			_ = i0.PreviousTxIDAdd(append([]byte{}, fixedTxID...))
 			plain.Inputs = []*bt.Input{i0, tx.Inputs[1]}
-			if !bytes.Equal(ext, plain.ExtendedBytes()) {
+			if amountOnly || !bytes.Equal(ext, plain.ExtendedBytes()) {
 				c.Violationf("C08:caller-data:tx-extended-serialisation:"+e, "tx.ExtendedBytes() after Execute is neither unchanged nor 'checked input records the spent output': got %x want %x", ext, extExpect)
 			}
 		}
